@@ -227,7 +227,9 @@ int skinny64_ctr_init(Skinny64CTR_t *ctr)
         ctr->ctx = 0;
         return 0;
     }
-    return 1;
+
+    /* Start from the all-zeroes counter block */
+    return (*(vtable->set_counter))(ctr, 0, 0);
 }
 
 void skinny64_ctr_cleanup(Skinny64CTR_t *ctr)
